@@ -57,7 +57,7 @@ func Range(c Collection, ids []string, filter *Filter, sort []string, size uint,
 	if skip >= len(col.col) {
 		col = sortedResources{}
 	} else {
-		for i := skip; i < len(col.col) && i < skip+int(size); i++ {
+		for i := skip; i < len(col.col) && uint(i-skip) < size; i++ {
 			page = append(page, col.col[i])
 		}
 	}
